@@ -50,4 +50,5 @@ static inline double vin_f64(void){ uint64_t b = vin_u64(); double d; memcpy(&d,
 static inline float vin_f32(void){ uint32_t b = vin_u32(); float f; memcpy(&f, &b, 4); return f; }
 static inline uint64_t vbits64(double d){ uint64_t b; memcpy(&b, &d, 8); return b; }
 static inline uint32_t vbits32(float f){ uint32_t b; memcpy(&b, &f, 4); return b; }
+static inline float vin_unbits32(uint32_t b){ float f; memcpy(&f, &b, 4); return f; }
 #endif
